@@ -282,17 +282,60 @@ def row_wavelengths(r):
     return [lo + (hi - lo) * i / 8.0 for i in range(8)] + [hi]
 
 
+_FORMULA_RX = re.compile(r'type:\s*formula\s+(\d+)\s*\n(?:\s*wavelength_range:[^\n]*\n)?\s*coefficients:\s*([^\n]+)')
+
+
+def _formula_index():
+    """{row: (formula number, coefficients)} by a fast text scan of every data file (0.1 s for the catalogue)"""
+    if 'fidx' not in _cache:
+        df = _catalog()
+        out = {}
+        for i, fn in enumerate(df['filename']):
+            try:
+                txt = open(_repo('database', 'data-nk', fn), encoding='utf-8').read()
+            except OSError:
+                continue
+            m = _FORMULA_RX.search(txt)
+            if m:
+                try:
+                    out[i] = (int(m.group(1)), [float(x) for x in m.group(2).split()])
+                except ValueError:
+                    pass
+        _cache['fidx'] = out
+    return _cache['fidx']
+
+
+def sensitive_rows(per_formula=6):
+    """catalogue rows on which EVERY coefficient position of their formula matters: per formula the rows with the most
+    non-zero and most distinct coefficients and the longest lists; and every formula-4 row whose second resonance term
+    is present (c6 != 0: KH2PO4, NH4H2PO4, KTiOPO4 ...).  Always part of the quick tier and tried first by search()."""
+    if 'sens' in _cache:
+        return _cache['sens']
+    fi = _formula_index()
+    pick = []
+    for k in range(1, 10):
+        rows = [(i, c) for i, (kk, c) in fi.items() if kk == k]
+        rows.sort(key=lambda t: (-sum(1 for x in t[1] if x != 0), -len(set(t[1])), -len(t[1]), t[0]))
+        pick += [i for i, _ in rows[:per_formula]]
+        rows.sort(key=lambda t: (-len(t[1]), t[0]))
+        pick += [i for i, _ in rows[:2]]
+    pick += [i for i, (kk, c) in fi.items() if kk == 4 and len(c) > 6 and c[5] != 0]
+    _cache['sens'] = sorted(set(pick))
+    return _cache['sens']
+
+
 def _index_rows(ctx):
     df = _catalog()
     idx = list(range(len(df)))
     if ctx.quick():
         rng = random.Random(ctx.seed * 31 + 18)
-        pick = set(rng.sample(idx, ctx.n(260, len(idx))))
+        pick = set(rng.sample(idx, ctx.n(220, len(idx))))
         # always include the DATA layouts that are rare in the catalogue (formulas 8 and 9, two dispersion sections)
         rare = ('polyvinylpyrrolidone/Konig', 'main/AgBr/Schroter', 'main/TlCl/Schroter', 'urea/Rosker-e')
         for i, fn in enumerate(df['filename']):
             if any(t in fn for t in rare):
                 pick.add(i)
+        pick.update(sensitive_rows())
         idx = sorted(pick)
     return idx
 
@@ -490,7 +533,8 @@ def _queries(ctx):
     if ctx.quick():
         names = rng.sample(names, 260)
         pairs = rng.sample(pairs, 140)
-    return [(n, None) for n in names] + [(c, r) for c, r in pairs]
+    coll = [(n, None) for g in collision_groups() for n in g]
+    return coll + [(n, None) for n in names if (n, None) not in coll] + [(c, r) for c, r in pairs]
 
 
 def check_lookup_property(ctx, queries=None):
@@ -526,11 +570,11 @@ def check_lookup_model(ctx):
         if len(n) > 2:
             k = rng.randrange(len(n))
             extra.append((n[:k] + n[k + 1:], rf))
-    qs = rng.sample(qs, min(len(qs), ctx.n(70, 100000))) + [q for q in extra if not META.search(q[0])]
+    coll = [(n, None) for g in collision_groups() for n in g if not META.search(n)]
+    qs = coll + rng.sample(qs, min(len(qs), ctx.n(70, 100000))) + [q for q in extra if not META.search(q[0])]
     res = {'name': 'lookup-model-vs-implementation', 'n': len(qs), 'nontrivial': 0, 'samples': [],
            'disagreements': [], 'histogram': {'match': 0, 'nomatch': 0}}
-    rows_txt = 'Definition rows : list row := [\n' + ';\n'.join(
-        f'mkRow {coq_str(l[0])} {coq_str(l[3])} [{"; ".join(coq_str(x) for x in l)}]' for l in low) + '].\n'
+    rows_txt = _lower_rows_txt()
     try:
         rows_import = _rows_vo(rows_txt)
     except RuntimeError as e:
@@ -583,6 +627,203 @@ def check_lookup_model(ctx):
                                          'violates_property': False})
     res['samples'].append({'query': list(qs[0])})
     return res
+
+
+# ---- lookups through the real constructor, several in one process (history independence) ----
+def _row_fields():
+    if 'rowf' not in _cache:
+        df = _catalog()
+        _cache['rowf'] = [tuple(str(x) for x in t) for t in zip(df['category_name'], df['category_name_full'],
+                                                                 df['reference'], df['name'], df['filename'])]
+        _cache['rowr'] = [(float(a), float(b)) for a, b in zip(df['min_wavelength'], df['max_wavelength'])]
+    return _cache['rowf'], _cache['rowr']
+
+
+def py_lookup(q):
+    """stateless reference model of the lookup: (candidate rows, their scores)"""
+    rows, rng_ = _row_fields()
+    name = q['name'].lower()
+    ref = (q.get('reference') or '').lower()
+    cands = []
+    for i, f in enumerate(rows):
+        if name not in f[0].lower() and name not in f[3].lower():
+            continue
+        if ref and not any(ref in x.lower() for x in f):
+            continue
+        ok = True
+        for b in (q.get('min_wavelength'), q.get('max_wavelength')):
+            if b and not (rng_[i][0] <= b <= rng_[i][1]):
+                ok = False
+        if ok:
+            cands.append(i)
+    scores = [min(py_lev(name, rows[i][0].lower()), py_lev(name, rows[i][3].lower())) for i in cands]
+    return cands, scores
+
+
+def impl_material(q):
+    """the real constructor: ('ok', [possible catalogue rows of the returned entry], file) | ('raise', text)"""
+    from optiland.materials.material import Material
+    df = _catalog()
+    if 'keyidx' not in _cache:
+        k = {}
+        for i, k4 in enumerate(zip(df['filename'], df['name'], df['reference'], df['category_name'])):
+            k.setdefault(k4, []).append(i)
+        _cache['keyidx'] = k
+    try:
+        with contextlib.redirect_stdout(io.StringIO()), warnings.catch_warnings():
+            warnings.simplefilter('ignore')
+            m = Material(q['name'], q.get('reference'), q.get('robust', True), q.get('min_wavelength'),
+                         q.get('max_wavelength'))
+    except Exception as e:
+        return ('raise', f'{type(e).__name__}: {e}'[:120])
+    d = m.material_data
+    ids = _cache['keyidx'].get((d.get('filename'), d.get('name'), d.get('reference'), d.get('category_name')), [])
+    return ('ok', ids, os.path.normpath(m.filename), d.get('filename'), m.name)
+
+
+def history_step_violation(q, r):
+    """judge ONE constructor call against the stateless model; None if it is what a fresh lookup must give"""
+    rows, _ = _row_fields()
+    cands, scores = py_lookup(q)
+    name = q['name']
+    if not cands or (not q.get('robust', True) and len(cands) > 1):
+        return None if r[0] == 'raise' else 'expected ValueError (%d candidates)' % len(cands)
+    if r[0] == 'raise':
+        return 'raised ' + r[1]
+    best = min(scores)
+    good = {i for i, s_ in zip(cands, scores) if s_ == best}
+    exact = {i for i in good if rows[i][3] == name or rows[i][0] == name}
+    if exact:
+        good = exact
+    if not r[1] or not (set(r[1]) & good):
+        got = rows[r[1][0]] if r[1] else None
+        return 'returned %r; a fresh lookup gives one of %r' % (
+            (got[0], got[3], got[4]) if got else r[3], sorted((rows[i][0], rows[i][3]) for i in good)[:3])
+    if not r[2].endswith(os.path.normpath(r[3])) or r[4] != name:
+        return 'loaded file %s / name %r do not belong to the selected row %s' % (r[2], r[4], r[3])
+    return None
+
+
+def collision_groups():
+    df = _catalog()
+    g = {}
+    for n in set(df['name']) | set(df['category_name']):
+        g.setdefault(n.lower(), set()).add(n)
+    return [sorted(v) for v in g.values() if len(v) > 1]
+
+
+def history_sequences(ctx):
+    """sequences of constructor calls made in ONE process.  Always: every case-colliding catalogue name pair in both
+    orders with repeats; the same name under different references / wavelength bounds / robust flags."""
+    df = _catalog()
+    rng = random.Random(ctx.seed * 19 + 7)
+    Q = lambda n, rf=None, rb=True, lo=None, hi=None: {'name': n, 'reference': rf, 'robust': rb,
+                                                       'min_wavelength': lo, 'max_wavelength': hi}
+    seqs = []
+    for grp in sorted(collision_groups()):
+        for a in grp:
+            for b in grp:
+                if a != b:
+                    seqs.append([Q(a), Q(b), Q(a), Q(b), Q(b.lower()), Q(a.upper()), Q(a)])
+    bad_files = {fn for fn in df['filename'] if 'polyvinylpyrrolidone/Konig' in fn}
+    cats = {}
+    for i, (c, rf, fn, lo, hi) in enumerate(zip(df['category_name'], df['reference'], df['filename'],
+                                                 df['min_wavelength'], df['max_wavelength'])):
+        cats.setdefault(c, []).append((rf, fn, float(lo), float(hi)))
+    multi = sorted(c for c, v in cats.items() if len({x[0] for x in v}) >= 2 and not any(x[1] in bad_files for x in v)
+                   and not META.search(c))
+    chosen = [c for c in ('BK7', 'SiO2') if c in multi] + rng.sample(multi, min(len(multi), ctx.n(3, 40)))
+    for c in chosen:
+        refs = sorted({x[0] for x in cats[c]})
+        r1, r2 = refs[0], refs[-1]
+        seqs.append([Q(c, r1), Q(c, r2), Q(c), Q(c, r1), Q(c, r2.lower()), Q(c, 'no-such-reference-xyz'), Q(c, r2)])
+        seqs.append([Q(c, rb=True), Q(c, rb=False), Q(c, rb=True), Q(c, r1, rb=False), Q(c, r1, rb=True)])
+        # wavelength bounds that select different rows of the same category
+        v = cats[c]
+        lo_max = max(x[2] for x in v)
+        hi_max = max(x[3] for x in v)
+        hi_min = min(x[3] for x in v)
+        lo_min = min(x[2] for x in v)
+        w_in = 0.5 * (lo_max + hi_min) if lo_max < hi_min else None
+        ws = [w for w in (hi_max * 0.999, lo_min * 1.001, w_in, hi_max * 10.0) if w]
+        seq = []
+        for w in ws:
+            seq += [Q(c, lo=w), Q(c), Q(c, hi=w)]
+        seq += [Q(c, lo=ws[0], hi=ws[1]), Q(c, lo=ws[1], hi=ws[0]), Q(c)]
+        seqs.append(seq)
+    return seqs
+
+
+def check_lookup_history(ctx, with_coq=True):
+    """Material(...) constructed repeatedly in this process: every call must return what the stateless lookup model
+    (Python reference; and Model/M_C18.v for the calls without wavelength bounds) gives for that call alone"""
+    res = {'name': 'lookup-history-independence', 'n': 0, 'nontrivial': 0, 'samples': [], 'disagreements': [],
+           'histogram': {'sequences': 0, 'returned': 0, 'raised': 0}}
+    seqs = history_sequences(ctx)
+    steps = []
+    for si, seq in enumerate(seqs):
+        res['histogram']['sequences'] += 1
+        for k, q in enumerate(seq):
+            r = impl_material(q)
+            res['n'] += 1
+            res['histogram']['returned' if r[0] == 'ok' else 'raised'] += 1
+            res['nontrivial'] += int(r[0] == 'ok')
+            steps.append((si, k, q, r))
+            why = history_step_violation(q, r)
+            if why:
+                res['disagreements'].append({'kind': 'lookup-history', 'sequence': seq[:k + 1], 'step': k, 'query': q,
+                                             'why': why, 'violates_property': True})
+    if seqs:
+        res['samples'].append({'sequence': [[q['name'], q['reference']] for q in seqs[0][:4]]})
+    if not with_coq or res['disagreements']:
+        return res
+    # the same calls against the Coq lookup model (no wavelength bounds there)
+    lines, meta = [], []
+    for (si, k, q, r) in steps:
+        if q['min_wavelength'] or q['max_wavelength']:
+            continue
+        qq = coq_str(q['name'].lower())
+        oref = 'None' if not q['reference'] else f'(Some {coq_str(q["reference"].lower())})'
+        if r[0] == 'ok' and r[1]:
+            one = ' || '.join(f'(existsb (Z.eqb {i}%Z) (cand_idx {qq} {oref} rows 0%Z) && '
+                              f'(score {qq} (nth {i} rows (mkRow [] [] [])) =? best_score {qq} {oref} rows)%Z)'
+                              for i in r[1])
+            lines.append(f'({one})')
+        elif q['robust']:
+            lines.append(f'zlist_eqb (cand_idx {qq} {oref} rows 0%Z) []')
+        else:
+            lines.append(f'negb (Nat.eqb (List.length (cand_idx {qq} {oref} rows 0%Z)) 1)')
+        meta.append((si, k, q))
+    try:
+        low = _lower_rows_txt()
+        imp = IMPORTS + '\n' + _rows_vo(low)
+        per = max(1, (len(lines) + 7) // 8)
+        bodies = ['Eval vm_compute in (report [\n' + ';\n'.join(lines[s:s + per]) + '\n]).\n'
+                  for s in range(0, len(lines), per)]
+        out = vlib.run_cases('C18hist', imp, bodies)
+    except RuntimeError as e:
+        res['error'] = str(e)
+        return res
+    for bi, o in enumerate(out):
+        if o[0] == 'error':
+            res['error'] = o[1]
+            return res
+        for kk in o[2]:
+            si, k, q = meta[bi * per + kk]
+            res['disagreements'].append({'kind': 'lookup-history-model', 'sequence': seqs[si][:k + 1], 'step': k,
+                                         'query': q, 'violates_property': False})
+        if o[1] > len(o[2]):
+            res['disagreements'].append({'kind': 'lookup-history-model', 'note': 'more in shard',
+                                         'violates_property': False})
+    return res
+
+
+def _lower_rows_txt():
+    df = _catalog()
+    low = [[str(x).lower() for x in (c, cf, rf, nm, fn)] for c, cf, rf, nm, fn in
+           zip(df['category_name'], df['category_name_full'], df['reference'], df['name'], df['filename'])]
+    return 'Definition rows : list row := [\n' + ';\n'.join(
+        f'mkRow {coq_str(l[0])} {coq_str(l[3])} [{"; ".join(coq_str(x) for x in l)}]' for l in low) + '].\n'
 
 
 def _rows_vo(rows_txt):
@@ -907,6 +1148,7 @@ def system_checks(ctx):
     yield check_index(ctx)
     yield check_lookup_property(ctx)
     yield check_lookup_model(ctx)
+    yield check_lookup_history(ctx)
     yield check_levenshtein(ctx)
     yield check_abbe(ctx)
     yield check_model_glass(ctx)
@@ -919,7 +1161,8 @@ def search(ctx, broken, disagreements):
     df = _catalog()
     rng = random.Random(ctx.seed + 1818)
     idx = rng.sample(range(len(df)), ctx.n(400, len(df)))
-    # make sure every formula number present in the catalogue is visited
+    # rows on which every coefficient position matters come first (a changed coefficient index shows there)
+    idx = sensitive_rows() + [i for i in idx if i not in set(sensitive_rows())]
     for i in idx:
         r = df.iloc[i]
         path = _repo('database', 'data-nk', r['filename'])
@@ -946,6 +1189,9 @@ def search(ctx, broken, disagreements):
             found.append(w)
     r = check_abbe_python(ctx)
     found.extend(r)
+    found.extend(check_lookup_history(ctx, with_coq=False)['disagreements'][:3])
+    if not any(f['kind'] == 'index' for f in found):
+        found.extend(synthetic_formula_search(ctx))
     for nm, nd, vd in schott_glasses():
         w = glass_violation(nm, nd, vd)
         if w:
@@ -953,6 +1199,42 @@ def search(ctx, broken, disagreements):
     r = check_abbe_call(ctx)
     found.extend(r['disagreements'])
     return found or None
+
+
+def synthetic_formula_search(ctx):
+    """all nine formulas on generated data files (every coefficient non-zero and distinct): used when no catalogue
+    row shows a difference (formula 7 has no catalogue entry at all)"""
+    from optiland.materials.material_file import MaterialFile
+    rng = random.Random(ctx.seed + 77)
+    out = []
+    for k in range(1, 10):
+        for _ in range(40):
+            ln = {4: rng.choice([9, 11, 13]), 7: rng.choice([3, 4, 5, 6]), 8: 4, 9: 6}.get(k, rng.choice([3, 5, 7]))
+            c = [round(rng.uniform(0.05, 0.9) + 0.01 * j, 4) for j in range(ln)]
+            if k in (3, 4, 5):
+                for j in range(ln):
+                    if (k != 4 and j % 2 == 0 and j > 0) or (k == 4 and j in (2, 4, 6, 8) or (k == 4 and j > 9 and j % 2 == 0)):
+                        c[j] = float(rng.choice([-4, -2, 2, 4])) + 0.5 * (j % 3)
+            w = rng.uniform(1.2, 2.0)
+            try:
+                exp = py_formula(k, c, w)
+            except (ValueError, ZeroDivisionError, OverflowError):
+                continue
+            if isinstance(exp, complex) or not math.isfinite(exp):
+                continue
+            m = MaterialFile.__new__(MaterialFile)
+            m.coefficients = list(c)
+            try:
+                with warnings.catch_warnings():
+                    warnings.simplefilter('ignore')
+                    got = _f(getattr(m, f'_formula_{k}')(w))
+            except Exception as e:
+                got = None
+            if got is None or not _agree(got, exp):
+                out.append({'kind': 'formula-synthetic', 'formula': k, 'coefficients': c, 'wavelength': w,
+                            'implementation': got, 'published_formula': exp, 'violates_property': True})
+                break
+    return out
 
 
 def check_abbe_python(ctx):
